@@ -3,7 +3,10 @@
    service): the script (number of callbacks, failing step, timeout, arrivals) plus what the
    harness observed.  resprot.ParseResponse is not modelled here (C18): the harness supplies,
    for every scripted payload, a canonical summary of ParseResponse(payload) computed with the
-   real function, and the summary of the Response that SendRequest returned.
+   real function, and the summary of the Response that SendRequest returned.  The summaries of
+   the timeout error and of the internal error of a failing step are computed HERE from the model
+   (code system.internalError, message = prefix ++ text of the injected error), never by calling
+   res.InternalError in the harness.
    [mismatches]: model vs implementation.  [violations]: the property's decidable form on
    the implementation's outputs. *)
 From GoRes Require Export Client.Spec.
@@ -11,12 +14,11 @@ Open Scope Z_scope.
 
 Record ccase := CC {
   c_ncb : nat;                      (* number of onTimeoutExtend callbacks *)
-  c_fail : fail;                    (* scripted failing step *)
+  c_fail : fail;                    (* scripted failing step with the error value it fails with,
+                                       described by the harness from how it BUILT the error *)
   c_T : Z;                          (* timeout argument, ns *)
   c_arr : list (Z * bytes);         (* arrivals after the publish: ns since the publish, payload *)
   c_parse : list (bytes * bytes);   (* payload -> summary of resprot.ParseResponse(payload) *)
-  c_int : bytes;                    (* summary of Response{Error: res.InternalError(injected error)} *)
-  c_tmo : bytes;                    (* summary of Response{Error: res.ErrTimeout} *)
   g_resp : bytes;                   (* summary of the returned Response *)
   g_cbs : list (nat * Z);           (* callback invocations in order: (index, duration ns) *)
   g_subscribed : bool;              (* ChanSubscribe returned a subscription *)
@@ -42,11 +44,18 @@ Definition cbs_eqb := list_eqb cb_eqb.
 Definition parse_of (c : ccase) (p : bytes) : bytes :=
   match alookup p (c_parse c) with Some s => s | None => [0%N] end.
 
+(* the harness' summary of a Response whose only member is Error{Code, Message} (Data nil):
+   R<nil>|S:|E:<code>|<message>|null -- computed here, not by the code under test *)
+Definition err_summary (cm : bytes * bytes) : bytes :=
+  [82; 60; 110; 105; 108; 62; 124; 83; 58; 124; 69; 58]%N ++ fst cm ++ [124%N] ++ snd cm ++ [124; 110; 117; 108; 108]%N.
+Definition tmo_summary : bytes := err_summary (code_timeout, msg_timeout).
+Definition int_summary (c : ccase) : bytes :=
+  match fail_err (c_fail c) with Some e => err_summary (internal_error e) | None => [0%N] end.
+
 Definition expected_summary (c : ccase) (o : outcome) : bytes :=
   match o with
   | OResponse p => parse_of c p
-  | OTimeout => c_tmo c
-  | OInternal _ => c_int c
+  | _ => match res_error o with Some cm => err_summary cm | None => [0%N] end
   end.
 
 (* every timer-vs-message decision the model takes on this script is at least [margin] away
@@ -114,7 +123,7 @@ Definition viol_case (c : ccase) : list N :=
   let all_pre_in_time := Nat.eqb (length got) (length pre) in
   let first_in_time := match first with Some (t0, _) => all_pre_in_time && (Z.max now' t0 <? dl') | None => false end in
   let is_first := match first with Some (_, p) => beq (g_resp c) (parse_of c p) | None => false end in
-  let is_tmo := beq (g_resp c) (c_tmo c) in
+  let is_tmo := beq (g_resp c) tmo_summary in
   (match c_fail c with
    | FNone =>
      (if is_first || is_tmo then [] else [1%N]) ++
@@ -124,7 +133,7 @@ Definition viol_case (c : ccase) : list N :=
      (if is_tmo && negb is_first && negb first_in_time && negb (cbs_eqb (g_cbs c) (notes ncb got)) then [7%N] else []) ++
      (if g_pubok c then [] else [8%N])
    | _ =>
-     (if beq (g_resp c) (c_int c) && is_nil (g_cbs c) && (g_elapsed c <=? tolerance) then [] else [4%N])
+     (if beq (g_resp c) (int_summary c) && is_nil (g_cbs c) && (g_elapsed c <=? tolerance) then [] else [4%N])
    end ++
    (if g_subscribed c && (negb (g_released c) || negb (g_live c =? 0)%N) then [2%N] else [])).
 
